@@ -208,6 +208,8 @@ theorem c02_sim_step (s : St) (e : Ev) (s' : St) (ms : C02St) (hR : RelC02 s ms)
       · have := hR.mlt p hp; simp; omega
   | invTry t w =>
     simp only [step] at hstep; split at hstep <;> simp at hstep; subst hstep
+    rename_i ht
+    obtain ⟨ht, rfl⟩ := ht
     refine ⟨ms, rfl, hi', rel2_append _ _ _ hR.rel2 (by intro x hx; cases hx), Cover.append hR.cover _ rfl,
       hR.thr.append _ rfl rfl, ?_, hR.cx, hR.nobl, hR.wt.append _ (by intro w hw; simp [TS.lockMode] at hw)⟩
     intro p hp; have := hR.mlt p hp; simp; omega
@@ -269,7 +271,8 @@ theorem c02_sim_step (s : St) (e : Ev) (s' : St) (ms : C02St) (hR : RelC02 s ms)
   | retTry t r =>
     simp only [step] at hstep; split at hstep <;> simp at hstep
     · obtain ⟨rfl, rfl⟩ := hstep; rename_i w h
-      refine ⟨{ ms with holders := (t, w) :: ms.holders }, rfl, hi', ?_, ?_, ?_, ?_, hR.cx, hR.nobl, ?_⟩
+      refine ⟨{ ms with holders := (t, w) :: ms.holders }, ?_, hi', ?_, ?_, ?_, ?_, hR.cx, hR.nobl, ?_⟩
+      · simp [monC02, hR.nobl]
       · exact rel2_grant hR.rel2 w h (by intro w h; cases h) rfl
       · exact Cover.grant hR.cover w h rfl
       · exact (hR.thr.move (.held w) h (MoveOK.plain _ _ _ _ _ rfl rfl rfl (Or.inl rfl))).holders _
@@ -277,13 +280,13 @@ theorem c02_sim_step (s : St) (e : Ev) (s' : St) (ms : C02St) (hR : RelC02 s ms)
       · exact hR.wt.move _ h (by intro w' hm; simp [TS.lockMode] at hm)
     · subst hstep; rename_i h
       exact ⟨ms, rfl, hR.plain_move .finished _ rfl rfl hi' h (by intro w h; cases h) rfl (by intro x hx; cases hx) rfl
-        (by simp [TS.afterHeld]) (MoveOK.plain _ _ _ _ _ rfl rfl rfl (Or.inl rfl))⟩
+        (by simp [TS.afterHeld]) (MoveOK.plain _ _ _ _ _ rfl rfl rfl (Or.inr rfl))⟩
   | tryCS t =>
     simp only [step] at hstep; split at hstep <;> try simp at hstep
     rename_i w h
     split at hstep <;> simp at hstep <;> subst hstep <;>
       exact hR.plain_move _ _ rfl rfl hi' h (by intro w h; cases h) rfl (by intro x hx; cases hx) rfl
-        (by simp [TS.afterHeld]) (MoveOK.plain _ _ _ _ _ rfl rfl rfl (Or.inl rfl))
+        (by simp [TS.afterHeld]) (MoveOK.plain_nobl _ _ _ _ _ rfl rfl rfl hR.nobl)
   | envCancel t =>
     simp only [step] at hstep; split at hstep <;> simp at hstep; subst hstep
     refine ⟨{ forgetCall ms t with cancelled := t :: ms.cancelled }, ?_, hi', hR.rel2, hR.cover, ?_, hR.mlt, ?_, ?_, hR.wt⟩
